@@ -50,6 +50,7 @@ LEVEL["decided"] += " (R02.6) every raise of the empty-input error has the built
 LEVEL["decided"] += ' (R02.11) nlargest / nsmallest take their first n items through a borrowed view that cannot close the source (R07.4, shared).'
 LEVEL["decided"] += " (R02.12) the user's key is never handed to list.sort / sorted / min / max of the standard library (R03.14, shared)."
 LEVEL["decided"] += " (R02.13) a key / reduction function is used whatever its truth value (R03.12, shared); R02.3 (no in-place operation on the caller's objects), R02.5 and R02.6 read the inlined views, so a private collecting / folding step is seen through."
+LEVEL["decided"] += ' (R02.15) the awaited result of an awaitable-returning key / function is what is compared or folded (adapter table R03.3, shared).'
 LEVEL["decided"] += ' (R02.14) the iterable is never asked for len() nor type-tested against synchronous containers (R03.2, shared); R02.4 reads the statements of _largest where they have the shape it knows and otherwise notes that the tables of nlargest / nsmallest decide.'
 
 AGGREGATIONS = ["builtins.all", "builtins.any", "builtins.sum", "builtins.min", "builtins.max", "builtins._min_max",
@@ -107,6 +108,10 @@ def run(ctx) -> None:
     ctx.rule("R02.14", "what an aggregation returns does not depend on whether its argument has a length or is a list: the iterable "
                        "is never asked for len() nor type-tested against synchronous containers (R03.2, shared)")
     c03.r03_2(Relabel(ctx, "R02.14"), modules=("builtins", "heapq", "functools"))
+    ctx.rule("R02.15", "an asynchronous key / reduction function is one whose call returns an awaitable (a coroutine, a future, an "
+                       "object with __await__): its awaited result is what is compared / folded - the adapter table of awaitify "
+                       "(R03.3, shared)")
+    c03.r03_3_awaitify(Relabel(ctx, "R02.15"))
     ctx.rule("R02.13", "a key / reduction function is used whatever its truth value (a callable object may be falsy): whether one was "
                        "given is decided by `is None` (R03.12, shared)")
     c03.r03_12(Relabel(ctx, "R02.13"), modules=("builtins", "heapq", "functools", "_core"))
@@ -334,6 +339,11 @@ def r02_2(ctx) -> None:
     for short in ("builtins._min_max", "builtins.min", "builtins.max"):
         u = ctx.unit(short)
         if "default" not in u.param_names():
+            if short == "builtins._min_max":
+                # (the shared search does not take the default: the public functions deal with it; the tables of min / max decide
+                # what is returned for empty input, R02.2 is read on the functions that do take it)
+                ctx.note("R02.2: the shared search of min / max takes no `default`; checked on min and max")
+                continue
             raise AnalysisError(f"{short} has no `default` parameter (anchor moved)")
         src = f"{u.short}:default"
         cfg = cfg_of(u)
@@ -768,5 +778,11 @@ def r02_6(ctx) -> None:
                 parts_of(s_)
     tests = [n for n in cfg.nodes if n.kind == "branch" and isinstance(n.ast, ast.Compare) and "initial" in norm(n.ast)
              and isinstance(n.ast.ops[0], (ast.Is, ast.IsNot))]
-    ctx.check(seeds == {"initial", "first item"} and bool(tests), "R02.6", u, "reduce",
-              "the seed is the initial value if given, otherwise the first item", witness=str(sorted(seeds)))
+    if not (seeds == {"initial", "first item"} and bool(tests)) and ctx.census.get("decided:functools.reduce", 0) >= 12:
+        # (the choice of the seed is not written as one statement here - e.g. one private coroutine per call shape; with and
+        # without initial, None as initial, empty and non-empty input are all cells of the reduce table R02.8, which decides)
+        ctx.note("R02.6: the seed of reduce is not chosen in one statement in this shape of reduce; the reduce table (R02.8: "
+                 f"{ctx.census.get('decided:functools.reduce', 0)} cells with / without / None initial) decides it")
+    else:
+        ctx.check(seeds == {"initial", "first item"} and bool(tests), "R02.6", u, "reduce",
+                  "the seed is the initial value if given, otherwise the first item", witness=str(sorted(seeds)))
